@@ -1,4 +1,5 @@
-"""C20 -- a suspended task resumes exactly once: the suspend/resume hand-shake on suspend_point_type::m_stack_state."""
+"""C20 -- a suspended task resumes exactly once: the hand-shake on suspend_point_type::m_stack_state (handshake.*), the stack-switch discipline (switch.*), the glue from
+tbb::task::suspend down to the coroutine switch (suspend.*), the arena coroutine cache (cocache.*), the resume task and the waiter node of a parked stack (rtask.*)."""
 import os
 import sys
 import re
@@ -67,8 +68,29 @@ def extract(ctx):
     t = rw.sub(t, r'a\.on_thread_leaving\(arena::ref_worker\);', 'STUB_arena_unref();', 0, None, name='callee stub')
     out.append(t)
     common.write(ctx, 'sp.inc', '\n'.join(out) + '\n')
+    closed_world_scan(rw)
     fired['suspend_point'] = rw.fired
     return sliced, fired
+
+
+def closed_world_scan(rw):
+    """every writer of the two hand-shake words lies inside a function that is under contract (plus the default member initialiser, which job suspend.get_suspend_point covers)"""
+    import glob
+    W = r'struct suspend_point_type \{'
+    allowed = {
+        'm_stack_state': [slice_block(SC, r'void finilize_resume\(\)', within=W).text, slice_block(SC, r'bool try_notify_resume\(\)', within=W).text, slice_block(SC, r'void recall_owner\(\)', within=W).text],
+        'm_is_owner_recalled': [slice_block(SC, r'void recall_owner\(\)', within=W).text, slice_block(TK, r'bool task_dispatcher::resume\(task_dispatcher& target\)').text],
+    }
+    files = sorted(glob.glob(os.path.join(cxx2c.REPO, 'src', 'tbb', '*.h')) + glob.glob(os.path.join(cxx2c.REPO, 'src', 'tbb', '*.cpp')) + glob.glob(os.path.join(cxx2c.REPO, 'include', 'oneapi', 'tbb', 'detail', '*.h')))
+    for field, texts in allowed.items():
+        pat = re.compile(r'\b%s\b\s*(?:\.\s*(?:store|exchange|compare_exchange_\w+|fetch_\w+)\s*\(|=(?!=)|\{|\+\+|--|[-+|&^]=)' % field)
+        total = 0
+        for f in files:
+            total += len(pat.findall(cxx2c.mask(load(os.path.relpath(f, cxx2c.REPO)))))
+        inside = sum(len(pat.findall(cxx2c.mask(t))) for t in texts)
+        if total != inside + 1:     # + 1: the declaration with its default member initialiser
+            raise ExtractionBreak('closed world broken: %s has %d writers in the tree, %d inside functions under contract (+ 1 declaration)' % (field, total, inside))
+        rw.fired['closed-world scan: writers of ' + field] = total
 
 
 TDC = 'src/tbb/task_dispatcher.cpp'
@@ -89,15 +111,16 @@ def extract_switch(ctx, sliced, fired):
     t = rw.sub(t, r'static_cast<thread_control_monitor::resume_context\*>\(td->my_post_resume_arg\)->notify\(\);', 'STUB_resume_context_notify(td->my_post_resume_arg);', 0, None, name='callee stub (re-registers the abandoned stack as a waiter)')
     t = rw.sub(t, r'task_dispatcher\* to_cleanup = static_cast<task_dispatcher\*>\(td->my_post_resume_arg\);', 'struct task_dispatcher* to_cleanup = (struct task_dispatcher*)td->my_post_resume_arg;', 0, None, name='cast')
     t = rw.sub(t, r'td->my_arena->on_thread_leaving\(arena::ref_external\);', 'STUB_arena_unref_external(td);', 0, None, name='callee stub')
-    t = rw.sub(t, r'td->my_arena->my_co_cache\.push\(to_cleanup\);', 'STUB_co_cache_push(td, to_cleanup);', 0, None, name='callee stub')
+    t = rw.sub(t, r'td->my_arena->my_co_cache\.push\(([^;]*)\);', r'STUB_co_cache_push(td, \1);', 0, None, name='callee (proved: cocache.push)')
     t = rw.sub(t, r'suspend_point_type\* sp = static_cast<suspend_point_type\*>\(td->my_post_resume_arg\);', 'struct sp* sp = (struct sp*)td->my_post_resume_arg;', 0, None, name='cast')
     t = rw.sub(t, r'sp->recall_owner\(\);', 'STUB_sp_recall_owner(sp);', 0, None, name='callee (proved: handshake.recall_owner)')
-    t = rw.sub(t, r'(?s)auto is_our_suspend_point = \[sp\] \(market_context ctx\) \{.*?\};', 'RG_NOP();', 0, None, name='lambda (predicate selecting the waiters of this suspend point) -> argument of the stub below')
-    t = rw.sub(t, r'td->my_arena->get_waiting_threads_monitor\(\)\.notify\(is_our_suspend_point\);', 'STUB_notify_waiters_of(td, sp);', 0, None, name='callee stub')
+    t = rw.sub(t, r'(?s)auto (\w+) = \[sp\] \(market_context (\w+)\) \{\s*return ([^;]*);\s*\};', r'\n#define \1(\2) (\3)\n', 0, None, name='lambda (predicate selecting the waiters of this suspend point) -> macro with the sliced expression as body')
+    t = rw.sub(t, r'td->my_arena->get_waiting_threads_monitor\(\)\.notify\((\w+)\);', r'NOTIFY_WAITERS(td, \1);', 0, None, name='callee stub (concurrent_monitor::notify(pred): the predicate is applied to the owner\'s wait context)')
     t = rw.sub(t, r'td->clear_post_resume_action\(\);', 'td_clear_post_resume_action(td);', 0, None, name='method')
     t = rw.sub(t, r'(?<![\w.>])(m_properties|m_execute_data_ext|m_stealing_threshold|m_suspend_point)\b', r'self->\1', 0, None, name='field')
     t = rw.asserts(t, 0)
     t = rw.std(t)
+    t = rw.fcasts(t, ['uintptr_t'], 0)
     out.append(t)
     # thread_data::set/clear_post_resume_action
     for name, sig, csig in (('set_post_resume_action', r'void set_post_resume_action\(task_dispatcher::post_resume_action pra, void\* arg\)', 'void td_set_post_resume_action(struct thread_data* self, int pra, void* arg)'),
@@ -125,7 +148,8 @@ def extract_switch(ctx, sliced, fired):
     t = rw.sub(t, r'm_thread_data->set_post_resume_action\(post_resume_action::(\w+), ([^;]*)\);', r'td_set_post_resume_action(self->m_thread_data, pra_\1, \2);', 0, None, name='method')
     t = rw.sub(t, r'\bthis\b', 'self', 0, None, name='this')
     t = rw.sub(t, r'resume\(static_cast<suspend_point_type::resume_task\*>\(resume_task\)->m_target\)', 'STUB_switch_to_target_of(self, resume_task)', 1, 1, name='callee stub (task_dispatcher::resume: the switch itself)')
-    t = rw.sub(t, r'== m_thread_data->my_task_dispatcher', '== self->m_thread_data->my_task_dispatcher', 0, None, name='field')
+    t = rw.sub(t, r'(?<![\w.>])m_thread_data\b', 'self->m_thread_data', 0, None, name='field')
+    t = rw.sub(t, r'(?<![\w.>])(m_properties|m_execute_data_ext|m_stealing_threshold|m_suspend_point)\b', r'self->\1', 0, None, name='field')
     t = rw.asserts(t, 0)
     t = rw.std(t)
     t = cxx2c.tag_loops(t, 'colw', rw, expect=1)
@@ -269,6 +293,15 @@ def extract_suspend(ctx, sliced, fired):
     t = 'void co_context_ctor(struct co_context* self, size_t stack_size, void* arg) {\n' + init + body + '}\n'
     t = rw.sub(t, r'(?<![\w.>])create_coroutine\(my_coroutine, stack_size, arg\);', 'STUB_create_coroutine(&self->my_coroutine, stack_size, arg);', 0, None, name='callee (proved: coroutine.entry_roundtrip)')
     t = rw.sub(t, r'(?<![\w.>])current_coroutine\(my_coroutine\);', 'STUB_current_coroutine(&self->my_coroutine);', 0, None, name='callee stub')
+    t = rw.asserts(t, 0)
+    t = rw.std(t)
+    out.append(t)
+    s = slice_block(CO, r'~co_context\(\)', within=W)
+    note(s, 'co_context::~co_context')
+    t = cxx2c.cpp_resolve(s.text, {'__TBB_RESUMABLE_TASKS_USE_THREADS': 0}, '~co_context')
+    t = rw.sub(t, r'~co_context\(\)', 'void co_context_dtor(struct co_context* self)', 1, 1, name='sig')
+    t = rw.sub(t, r'(?<![\w.>])destroy_coroutine\(my_coroutine\);', 'STUB_destroy_coroutine(&self->my_coroutine);', 0, None, name='callee stub (munmap of the coroutine stack)')
+    t = rw.sub(t, r'(?<![\w.>])my_state\b', 'self->my_state', 0, None, name='field')
     t = rw.asserts(t, 0)
     t = rw.std(t)
     out.append(t)
@@ -608,6 +641,18 @@ def extract_rtask(ctx, sliced, fired):
         t = rw.sub(t, r'task_accessor::is_resume_task\(t\)', 'TASK_IS_RESUME(t)', 0, None, name='accessor')
         t = rw.std(t)
         out.append(t)
+    s = slice_block(WT, r'void pause\(arena_slot& slot\)', within=r'class coroutine_waiter : public sleep_waiter \{')
+    note(s, 'coroutine_waiter::pause')
+    t = rw.sub(s.text, r'void pause\(arena_slot& slot\)', 'void cw_pause(struct waiter* self, arena_slot* slot)', 1, 1, name='sig')
+    t = rw.sub(t, r'sleep_waiter::pause\(\)', 'STUB_backoff_pause(self)', 0, None, name='callee stub (spin/yield back-off; true = time to sleep)')
+    t = rw.sub(t, r'slot\.default_task_dispatcher\(\)\.', 'slot->my_default_task_dispatcher->', 0, None, name='accessor')
+    t = rw.sub(t, r'(?s)auto (\w+) = \[&\] \{\s*return ([^;]*);\s*\};', r'\n#define \1 (\2)\n', 0, None, name='lambda (wake-up condition) -> macro with the sliced expression as body')
+    t = rw.sub(t, r'my_arena\.is_empty\(\)', 'STUB_arena_is_empty(self)', 0, None, name='callee stub')
+    t = rw.sub(t, r'((?:\w+(?:->|\.))*m_is_owner_recalled)\.load\(std::memory_order_\w+\)', r'ATOMIC_LOAD(\1)', 0, None, name='atomic-load')
+    t = rw.sub(t, r'(?m)^(\s*)sleep\(', r'\1STUB_sleep(self, ', 0, None, name='callee stub (concurrent_monitor::wait under a tag: C02)')
+    t = rw.std(t)
+    t = rw.fcasts(t, ['uintptr_t'], 0)
+    out.append(t)
     common.write(ctx, 'rtask.inc', '\n'.join(out) + '\n')
     fired['resume_task'] = rw.fired
 
@@ -637,6 +682,7 @@ def build(ctx):
         Job('suspend.create_coroutine', C2, 'h_create_coroutine', route='LF', defines=D, target='r1::create_coroutine + task_dispatcher constructor + init_suspend_point + constructors', source=TK, timeout=200),
         Job('suspend.internal_suspend', C2, 'h_internal_suspend', route='LF', defines=D, target='task_dispatcher::internal_suspend (+ get_suspend_point, create_coroutine)', source=TK, timeout=200),
         Job('suspend.sp_resume', C2, 'h_sp_resume', route='LF', defines=D, target='suspend_point_type::resume + co_context::resume', source=SC, timeout=200),
+        Job('suspend.co_context_dtor', C2, 'h_co_dtor', route='LF', defines=D, target='co_context::~co_context', source=CO, timeout=200),
         Job('suspend.attach_detach', C2, 'h_attach_detach', route='LF', defines=D, target='thread_data::detach_task_dispatcher / attach_task_dispatcher', source=TD, timeout=200),
         Job('suspend.entry_roundtrip', C2, 'h_entry_roundtrip', route='LF', defines=D, target='create_coroutine (ucontext) + co_local_wait_for_all(hi, lo): dispatcher address round trip', source=CO, timeout=200),
     ]
@@ -651,16 +697,66 @@ def build(ctx):
     jobs += [
         Job('rtask.execute', C2, 'h_rtask_execute', route='LF', defines=D, target='suspend_point_type::resume_task::execute + resume_node constructor and wait()', source=TDH, timeout=200),
         Job('rtask.notify', C2, 'h_rtask_notify', route='RG', defines=D + ['NOTIFY_JOB'], target='resume_node::notify (two notifiers, one resume)', source=TCM, timeout=200),
-        Job('rtask.self_recall', C2, 'h_self_recall', route='LF', defines=D, target='get_self_recall_task, coroutine_waiter / external_waiter ::continue_execution, ::postpone_execution', source=TDH, timeout=200),
+        Job('rtask.self_recall', C2, 'h_self_recall', route='LF', defines=D, target='get_self_recall_task, coroutine_waiter / external_waiter ::continue_execution, ::postpone_execution, coroutine_waiter::pause', source=TDH, timeout=200),
     ]
     return {
         'jobs': jobs, 'sliced': sliced, 'fired': fired,
-        'trusted': ['task_stream::push, arena reference counting, advertise_new_work: stubs (push counted)', 'co_context switch, local_wait_for_all, detach/attach_task_dispatcher, co_cache, waiting-threads monitor: stubs with effect counters', 'SC atomics', 'closed world: m_stack_state is written only by the sliced functions and co_context construction'],
-        'drops': ['debug pointer checks', 'local reference aliases', 'enum class -> plain enum'],
-        'not_decided': ['the coroutine switch itself', 'internal_suspend target choice / create_coroutine / resume_task::execute', 'owner recall wake-up reaching the sleeper (liveness)', 'the enclosing wait not completing early (C01)'],
-        'assumptions': ['resume is called once for the suspend point (the property\'s own precondition)'],
+        'trusted': [
+            'task_stream::push, arena reference counting (my_references += / on_thread_leaving), advertise_new_work: stubs; pushes, pins and wake-ups are counted and ordered',
+            'swapcontext / makecontext / getcontext / mmap / mprotect: stubs (the switch returns "when somebody switches back": on return the coroutine is executing again, the stack state is suspended or notified, as the hand-shake jobs prove for the party that does it)',
+            'task_dispatcher::local_wait_for_all (the dispatch loop) as called from the coroutine prologue: stub returning a resume task',
+            'concurrent_monitor::wait(pred, node) used by resume_task::execute: stub by its contract (predicate true under a prepared wait -> cancelled, false; else node.wait() called exactly once, last -> true); the monitor itself is C02',
+            'wait_context::continue_execution: read-only stub (nondeterministic, consulted value remembered)',
+            'cache_aligned_allocate: never fails (alloc_nofail); cache_aligned_deallocate, ~task_dispatcher: counted stubs; std::memset: clears exactly what the stub checks it is asked to clear',
+            'task_group_context_impl::bind_to, governor::get_thread_data, governor::default_page_size, worker_stack_size (> 0), set_stealing_threshold: stubs',
+            'per-job contract stubs whose contract is proved by another job of this check: task_dispatcher::resume (switch.resume) in suspend.internal_suspend / rtask.execute; get_suspend_point (suspend.get_suspend_point) in rtask.execute; '
+            'internal_suspend and recall_point in suspend.td_suspend / suspend.internal_suspend / switch.recall_point; finilize_resume (handshake.leaver) in suspend.sp_resume / switch.coroutine_prologue; '
+            'arena_co_cache::pop (cocache.pop) in suspend.create_coroutine and cocache.cleanup; arena_co_cache::push (cocache.push) in switch.do_post_resume_action; r1::resume (handshake.resumer) in rtask.*',
+            'SC atomics',
+            'closed world: m_stack_state is written only by the sliced functions and the default member initialiser; my_co_cache is used only by create_coroutine (pop), the cleanup action (push), arena construction / destruction (scanned)',
+        ],
+        'drops': ['debug pointer checks (assert_pointer_valid*) -> RG_NOP', 'local reference aliases', 'enum class -> plain enum', 'references -> pointers, `this` -> self, member names -> self->member',
+                  'constructor init lists -> INIT_<member>(self, args) in declared order, default member initialisers -> assignments in declared order (harvested from the class text)',
+                  'placement new -> allocation stub + constructor call', 'RAII: spin_mutex::scoped_lock -> LOCK_MUTEX / UNLOCK_MUTEX at every scope exit; resume_context node -> RESUME_NODE_CTOR / RESUME_NODE_DTOR at every scope exit',
+                  'the predicate lambda of concurrent_monitor::wait -> its expression handed to the stub', '`while (T* x = f())` -> declaration hoisted', '#if chains resolved for __TBB_RESUMABLE_TASKS=1, __TBB_PREVIEW_CRITICAL_TASKS=1, __TBB_RESUMABLE_TASKS_USE_THREADS=0, !_WIN32',
+                  'element accesses of the coroutine ring -> CACHE_RD / CACHE_WR / HEAD_RD / HEAD_WR accessor macros', 'ITT / suppress_unused_warning -> RG_NOP'],
+        'not_decided': [
+            'the coroutine switch itself (swapcontext; register and stack contents) and the thread-based variant of co_context (sanitizer builds), the Windows fiber variant',
+            'resume_node::reset / ~resume_node (absorbing the stale notification of a cancelled wait): sliced text not under an obligation - a stale count only causes a spurious resume of a waiting stack, which re-checks its wait',
+            'that the resume task pushed into a stream is taken by some thread, and the owner-recall wake-up reaching the sleeping owner (liveness; streams are C16, the monitor C02)',
+            'the enclosing wait not completing early: the reference held by the suspended task on its wait context is the caller\'s (C01/C03); here only: the resume task returns no task and does not touch the wait context',
+            'local_wait_for_all\'s own bookkeeping (dispatch_loop_guard restores m_properties / execute data on exit): C01; the frame obligations here cover suspend, internal_suspend, get_suspend_point, task_dispatcher::resume, do_post_resume_action, recall_point, resume_task::execute',
+            '~task_dispatcher / ~suspend_point_type beyond ~co_context (the reference-vertex map), arena::free_arena ordering',
+            'composition of the per-function contracts into the whole-history statement (written argument in the harness comments, not mechanised)',
+        ],
+        'assumptions': ['resume is called once for the suspend point (the property\'s own precondition)', 'the user callback does not itself suspend or leave a post-resume action behind',
+                        'coroutine ring capacity 1..4096 (arena: 4 * slots)', 'addresses passed to mmap stub below 2^47; page size 4096 / 16384 / 65536',
+                        'a recalled stack has no outstanding user tag (its last tag was consumed by the resume that made a foreign thread run on it)'],
     }
 
 
+_replay_cache = {}
+
+
 def replay(ctx, jobname, failure):
-    return {'reproduced': False, 'detail': 'no native recipe: forcing both race orders of the two exchanges needs control of the coroutine switch'}
+    """Native recipe: scenario suite on the real library (compiled from the current src/tbb) - continuation counters per suspend point, owner thread at continuation, completion of the
+    enclosing wait, progress under a watchdog.  The verifier's counterexample is a schedule / a code path, not an input, so the same suite is run for every job (once per check run)."""
+    if os.environ.get('C20_SKIP_NATIVE'):      # development aid for mutation testing (the library build takes minutes on a loaded machine)
+        return {'reproduced': False, 'detail': 'native replay skipped (C20_SKIP_NATIVE set)'}
+    if 'r' not in _replay_cache:
+        try:
+            exe = native.build([os.path.join(HERE, 'c20_replay.cpp')], os.path.join(ctx.work, 'c20_replay'), link_tbb=True, timeout=900)
+            args = [exe, 'watchdog=40', 'reps=2']
+            rc, out = native.run(args, timeout=1200)
+        except native.NativeError as e:
+            _replay_cache['r'] = {'reproduced': False, 'detail': 'native build failed: %s' % str(e)[-300:]}
+            return dict(_replay_cache['r'])
+        rep = {'cmd': ' '.join(args), 'rc': rc, 'output': out[-1500:], 'reproduced': False, 'detail': 'the native scenario suite (14 scenarios x 2) saw no double, missing or early continuation and no hang'}
+        m = re.search(r'^REPRODUCED (.*)', out, re.M)
+        if m:
+            rep['reproduced'] = True
+            rep['detail'] = m.group(1)
+            w = re.search(r'class=(\S+)', m.group(1))
+            rep['witness_class'] = w.group(1) if w else None
+        _replay_cache['r'] = rep
+    return dict(_replay_cache['r'])
